@@ -66,6 +66,81 @@ theorem C10_transcoding_error (e : RawErr) (c : Nat) :
   | some st => simp [rawMessage_infix_convert]
   | none => simp [convert, RawErr.direct, explicitOf, rawMessage_infix_text]
 
+/-! ### which `HTTPStatus()` override wins, for arbitrarily nested error values -/
+
+/-- **Only the outermost value's own `HTTPStatus()` counts** (`err.(interface{ HTTPStatus() int })` is a type
+    assertion, not `errors.As`): an error has an explicit HTTP status exactly when it is itself an
+    `httperr.StatusError` or a type implementing both interfaces — whatever is nested inside. -/
+theorem C10_explicit_iff_outermost (e : RawErr) (h : Nat) :
+    explicitOf e = some h ↔ (∃ i, e = .http h i) ∨ (∃ st, e = .both h st) := by
+  cases e <;> simp [explicitOf]
+
+/-- The outer override wins over any inner one, and a `fmt.Errorf("%w")` (or any other wrapper without the method)
+    HIDES every override below it: the status then falls back to the canonical one of the gRPC code. -/
+theorem C10_explicit_nesting (h : Nat) (p : Bytes) (i : RawErr) :
+    explicitOf (.http h i) = some h ∧ explicitOf (.wrapf p i) = none ∧
+    (errorStatus (.http h i)).2 = h ∧
+    (errorStatus (.wrapf p i)).2 = canonicalHttp (convert (.wrapf p i)).code := by
+  refine ⟨rfl, rfl, ?_, ?_⟩
+  · rw [errorStatus_http]; rfl
+  · rw [errorStatus_http]; rfl
+
+/-- The gRPC code, in contrast, IS found through every wrapper (`errors.As`): it is the code of the first status
+    along the unwrap chain, Unknown if there is none; wrappers only change the message (to `err.Error()`). -/
+theorem C10_code_through_wrappers (e : RawErr) :
+    (convert e).code = (e.findStatus.map (·.code)).getD cUnknown ∧
+    (convert e).details = (e.findStatus.map (·.details)).getD [] ∧
+    (e.direct = none → (convert e).msg = e.text) := by
+  unfold convert
+  cases hd : e.direct with
+  | some st =>
+    have hf : e.findStatus = some st := by
+      cases e <;> simp_all [RawErr.direct, RawErr.findStatus]
+    simp [hf]
+  | none =>
+    cases hf : e.findStatus <;> simp
+
+/-- **Full characterisation of `errorStatus` on nested values**: the status comes from the first status in the
+    unwrap chain (message replaced by `err.Error()` unless the value is a status itself), the HTTP code is the
+    outermost value's own override if it has one, else the canonical code of that status' gRPC code. -/
+theorem C10_errorStatus_nested (e : RawErr) :
+    (errorStatus e).2 =
+      (match e with
+       | .http h _ => h
+       | .both h _ => h
+       | _ => canonicalHttp ((e.findStatus.map (·.code)).getD cUnknown)) := by
+  rw [errorStatus_http]
+  have hc := (C10_code_through_wrappers e).1
+  cases e <;> simp_all [wantStatus, explicitOf]
+
+/-- **The documented loss.** A `httperr.StatusError` (grpcbridge's own carrier of an explicit HTTP status) that is
+    returned by a request or response TRANSCODER's `Transcode` loses both its HTTP status and its gRPC code:
+    `wrapTranscodingError` checks `err.(grpcstatus)` by type assertion, `StatusError` has no `GRPCStatus()`, so the
+    error is replaced by `status.Error(defaultCode, err.Error())` — InvalidArgument ⇒ 400 for requests, Internal ⇒ 500
+    for responses — whatever `h` and the inner error were. The text survives. (From the router and from `Bind` the same
+    value keeps its override: `C10_explicit_nesting`.) -/
+theorem C10_transcoder_statuserror_loses_override (h : Nat) (i : RawErr) :
+    explicitOf (requestTranscodingError (.http h i)) = none ∧
+    (convert (requestTranscodingError (.http h i))).code = cInvalidArgument ∧
+    (errorStatus (requestTranscodingError (.http h i))).2 = 400 ∧
+    (errorStatus (responseTranscodingError (.http h i))).2 = 500 ∧
+    (convert (requestTranscodingError (.http h i))).msg = (RawErr.http h i).text := by
+  refine ⟨rfl, rfl, ?_, ?_, rfl⟩
+  · rw [errorStatus_http]; rfl
+  · rw [errorStatus_http]; rfl
+
+/-- …whereas an error type that implements `GRPCStatus()` AND `HTTPStatus()` itself passes a transcoder unchanged
+    and keeps its override. -/
+theorem C10_transcoder_both_keeps_override (h : Nat) (st : St) :
+    requestTranscodingError (.both h st) = .both h st ∧
+    (errorStatus (requestTranscodingError (.both h st))).2 = h := by
+  refine ⟨rfl, ?_⟩
+  rw [errorStatus_http]; rfl
+
+/-- witness: 413 Payload Too Large from a request transcoder is answered as 400 InvalidArgument -/
+example : (errorStatus (requestTranscodingError (.http 413 (.status ⟨8, [98, 105, 103], []⟩)))).2 = 400 ∧
+    (errorStatus (.http 413 (.status ⟨8, [98, 105, 103], []⟩))).2 = 413 := by decide
+
 /-! ### the decision tree of `writeError` -/
 
 /-- Once a status or a byte has been written, errors are not rendered. -/
